@@ -11,7 +11,7 @@ CHECKS = {
  "C19": ("E1", "stateless exhaustive enumeration of (old database, new input, force) and of all read-call sequences up to a length bound, with a sqlite statement trace and canonical file comparison",
          "Every (old database kind, new input, force, input form) combination checks that create_db without force raises and leaves the file's canonical content unchanged and with force equals a fresh import; every sequence of <= 3 (quick) / <= 4 (thorough) of 19 read-style calls on copies of 4 file databases runs under a statement trace (only SELECT/PRAGMA allowed) and the closed file is compared canonically (all tables, counters, dialect, directives) and reopened.",
          "3/C19", "sqlite3's trace callback is trusted to see every statement; byte identity is reported, not judged; " + TRUST),
- "C20": ("E3", "systematic schedule enumeration of real forked processes under a controlled scheduler (all interleavings for 2 imports; pre-emption-bounded for 3 imports and for readers), forced temp-name collisions",
+ "C20": ("E3", "systematic schedule enumeration of real forked processes under a controlled scheduler (all interleavings for 2 imports; pre-emption-bounded for 3 imports, for readers and for the torn-write pair), forced temp-name collisions",
          "Real create_db processes sharing one temp directory are serialised at every temp-directory operation; for six 2-process job sets every interleaving, for three 3-process sets every schedule within 1 (quick) / 2 (thorough) pre-emptions, is executed; each output database is compared canonically with a solitary run and the shared directory must be empty. 2 and 3 concurrent readers of one file are scheduled at connect/statement/commit/row-fetch granularity within a pre-emption bound and must all observe the full content. Every job has a scheduling point at its start (start offsets); the controller itself runs a solitary import in the shared directory before forking; job kinds include from_string, force=True over an existing file, file:// URL input, a CDS-only GTF and one solitary 13 000-line import.",
          "3/C20", "one process runs at a time; OS/sqlite atomicity trusted; 2-3 processes only; " + TRUST),
  "C02": ("E1", "stateless exhaustive enumeration of all small Parent DAGs x dangling value x every line permutation against the real importer and relation queries",
@@ -69,6 +69,7 @@ CHECKS = {
          "All (start,end) pairs over the +-2 (quick) / +-3 (thorough) boundary grid of every bin level, both conventions (asked in both orders within one execution), both result forms, are evaluated on the real bins() and checked against bin extents computed by arithmetic; all overlapping interval pairs of a sub-grid check bin-in-bin-set; Feature.bin agrees.",
          "3/C12", "behaviour away from the grid is covered only by the argument that bins() sees coordinates through fixed shifts; " + TRUST),
 }
+DESCR = json.load(open(os.path.join(HERE, "tools", "descriptions.json"))) if os.path.exists(os.path.join(HERE, "tools", "descriptions.json")) else {}
 NOT_YET = "check not built yet in this round (work in progress; see DESIGN.md section 3)"
 
 def main():
@@ -78,6 +79,7 @@ def main():
     for pid in props:
         if pid in CHECKS and os.path.exists(os.path.join(HERE, "gv", "props", pid.lower() + ".py")):
             eng, tech, text, ref, note = CHECKS[pid]
+            text = DESCR.get(pid, {}).get("manifest_text", text)      # tools/descriptions.json: texts re-derived from the code
             checks.append(dict(
                 property_id=pid,
                 quick_cmd="./check %s --tier quick" % pid,
